@@ -23,9 +23,10 @@ type fragHandler struct {
 func (h *fragHandler) Handle(ctx context.Context, call *tchannel.InboundCall) {
 	w := h.w
 	parts := strings.Split(call.MethodString(), "-")
-	rp, l2, l3 := 0, 0, 0
-	if len(parts) == 3 && strings.HasPrefix(parts[0], "e") {
-		rp, _ = strconv.Atoi(parts[0][1:])
+	rp, rp3, l2, l3 := 0, 0, 0, 0
+	if len(parts) == 3 && strings.HasPrefix(parts[0], "e") && len(parts[0]) == 3 {
+		rp = int(parts[0][1] - '0')  // read pattern for arg2
+		rp3 = int(parts[0][2] - '0') // read pattern for arg3 (independent: e.g. exact arg2, to-EOF arg3)
 		l2, _ = strconv.Atoi(parts[1])
 		l3, _ = strconv.Atoi(parts[2])
 	}
@@ -62,7 +63,7 @@ func (h *fragHandler) Handle(ctx context.Context, call *tchannel.InboundCall) {
 		}
 		return
 	}
-	a3, err := readArg(call.Arg3Reader())(rp, l3)
+	a3, err := readArg(call.Arg3Reader())(rp3, l3)
 	obs.Read3 = len(a3)
 	if err != nil {
 		obs.ReadErr = err
@@ -184,6 +185,10 @@ func famFrag(w *World) {
 		tag := fmt.Sprintf("c%d", len(w.Calls)+1)
 		rp, wp := scn(3), scn(4)
 		crp, hwp := scn(3), scn(4)
+		rp3, crp3 := rp, crp
+		if scnChance(1, 2) {
+			rp3, crp3 = scn(3), scn(3) // each argument is read its own way
+		}
 		// sizes: the request header of this call, as the independent codec lays it out
 		cmdProbe := CallSpec{Tag: tag, Mode: "echo", Code: hwp, Rs2: -1, Rs3: -1}
 		cmdLen := len((&CallRec{Spec: cmdProbe}).cmd()) + 1
@@ -191,7 +196,7 @@ func famFrag(w *World) {
 		contRoom := fm - (wire.HeaderSize + 1 + 1 + csz) - 2
 		// header of the first request frame: flags1 ttl4 span25 service~1 nh1 headers csumtype1 csum
 		hdr := wire.HeaderSize + 1 + 4 + 25 + 1 + len(srv.Service) + 1 + (1 + 2 + 1 + len(cli.Service)) + (1 + 2 + 1 + 3) + 1 + csz
-		methodGuess := 12
+		methodGuess := 13
 		firstRoom2 := fm - hdr - (2 + methodGuess) - 2 - cmdLen
 		pad2 := biasLen(firstRoom2, contRoom)
 		if capc > 0 && capc < 300 && pad2 > 6000 {
@@ -212,7 +217,7 @@ func famFrag(w *World) {
 			len3 = maxB - scn(100)
 		}
 		s := CallSpec{Tag: tag, From: cli, To: target, Service: srv.Service, Via: via, Timeout: 30 * time.Second,
-			Pad2: pad2, Len3: len3, Rs2: -1, Rs3: -1, WritePat: wp, ReadPat: crp, Code: hwp}
+			Pad2: pad2, Len3: len3, Rs2: -1, Rs3: -1, WritePat: wp, ReadPat: crp, ReadPat3: crp3 + 1, Code: hwp}
 		if scnChance(1, 2) {
 			// response sizes around the response's own fragment boundaries
 			fr := frameMax(caps2)
@@ -239,10 +244,11 @@ func famFrag(w *World) {
 			}
 		}
 		r := w.newCall(s)
-		r.Spec.Method = fmt.Sprintf("e%d-%d-%d", rp, len(r.Req2), len(r.Req3))
-		w.describe("call %s a2=%d a3=%d rs=%d/%d wp=%d rp(server)=%d rp(client)=%d wp(server)=%d method=%s", tag, len(r.Req2), len3, s.Rs2, s.Rs3, wp, rp, crp, hwp, r.Spec.Method)
+		r.Spec.Method = fmt.Sprintf("e%d%d-%d-%d", rp, rp3, len(r.Req2), len(r.Req3))
+		w.describe("call %s a2=%d a3=%d rs=%d/%d wp=%d rp(server)=%d/%d rp(client)=%d/%d wp(server)=%d method=%s", tag, len(r.Req2), len3, s.Rs2, s.Rs3, wp, rp, rp3, crp, crp3, hwp, r.Spec.Method)
 	}
 	if corrupt {
+		w.corruptPlanned = true
 		w.planCorruption()
 	}
 	for _, r := range w.Calls {
